@@ -500,7 +500,8 @@ TAIL_ORDER = list(TAILS)
 # submits the use while the name is still unbound (it must run as a command) before it gets bound.
 
 HIST_WARM = 'w0 = mk("w0")\nw0 -l\nlen -w0 and m\nc9 = [v9 -l for v9 in xs]\n'
-HIST_FIRST = ("W", "WC")
+HIST_FIRST = ("W", "WC", "WS")  # WS: warm-up only, with $XONSH_BUILTINS_TO_CMD switched ON for the whole history
+HIST_BUILTIN_NAMES = ("id", "type")  # session names spelled like a builtin (and like a command on $PATH)
 def hist_modes(n, mixed=True):
     """who makes each of the n changes: h = the harness between two inputs, s = an input (source).
     Uniform strings first; mixed ones (an input binds, the harness unbinds, ...) on request."""
@@ -561,10 +562,18 @@ def hist_steps(first, mode, events, u, f="head", name="n"):
     """-> (steps, separate_locals).  A step is ["src", text, "py"|"cmd", explicit spelling | None]
     or ["add"|"rem", "B"|"G"|"L", name] (harness action between two inputs)."""
     text = use_text(u, f, name)
-    cmd_ok = bool(USES[u]["cmd"]) and f == "head"
+    like_builtin = name in HIST_BUILTIN_NAMES
+    switch = first == "WS"
+    if (like_builtin or switch) and (first == "WC" or any(e[1] == "B" for e in events)):
+        # a builtin-named session name is never unbound (the builtin shows through) and the builtins module
+        # is left alone; with the switch on "commands win over builtins" is the documented opt-in
+        raise NotApplicable("no builtins events / command-first for builtin-named names or the switch")
+    cmd_ok = bool(USES[u]["cmd"]) and f == "head" and not like_builtin and not switch
     expl = explicit_text(u, text) + "\n" if cmd_ok else None
     sep = any(e[1] == "L" for e in events)
-    steps = [["src", HIST_WARM, "py", None]]
+    steps = [["src", HIST_WARM.replace("len -w0", "m -w0") if switch else HIST_WARM, "py", None]]
+    if switch:
+        steps.insert(0, ["env", "XONSH_BUILTINS_TO_CMD", True])
     if first == "WC":
         if not cmd_ok:
             raise NotApplicable("the use has no command reading to start with")
@@ -578,7 +587,8 @@ def hist_steps(first, mode, events, u, f="head", name="n"):
         else:
             steps.append(["src", _hist_source(op, x, name, sep), "py", None])
         state ^= {x}
-        if state:
+        if state or (like_builtin and not switch):
+            # bound in the session - or not, and then the builtin of that name is read (switch off)
             steps.append(["src", text + "\n", "py", None])
         elif cmd_ok:
             # unbound again: only uses with a well-defined command reading are submitted
